@@ -10,7 +10,8 @@ from checks import common, sesscheck
 PROP = "C10"
 LEVEL = "other"
 MODULE = "PropC10"
-THEOREMS = ["C10_existing_values_never_change", "C10_step_touches_nothing_existing", "C10_without_copy_refuted"]
+THEOREMS = ["C10_existing_values_never_change", "C10_step_touches_nothing_existing", "C10_without_copy_refuted",
+            "C10_program_constants_never_change", "C10_constant_read_is_stable"]
 IMPORTS = ["Base", "Bytecode", "Value", "Slice", "CorrSlice"]
 
 
